@@ -149,5 +149,19 @@ func run(p *Property, tier, only string) int {
 		res.VerifDir = filepath.Join(os.TempDir(), "tcheck-replay")
 		defer os.RemoveAll(res.VerifDir)
 	}
+	if os.Getenv("TCHECK_EMIT_KNOWN") != "" {
+		seen := map[string]bool{}
+		for _, sk := range res.Sinks {
+			for _, o := range sk.Obs {
+				if o.Verdict == core.Violation && known.Match(p.ID, o) == nil {
+					b, _ := json.Marshal(core.Finding{Property: p.ID, Rule: o.Rule, Key: o.Key, What: "", Sig: o.Sig})
+					if !seen[string(b)] {
+						seen[string(b)] = true
+						fmt.Println("EMIT", string(b))
+					}
+				}
+			}
+		}
+	}
 	return res.Finish(known)
 }
